@@ -741,7 +741,7 @@ func (e *Exec) concretize(s Sc, what string, limit int) int64 {
 	// enumerate feasible values via solver models
 	w := s.T.W
 	for n := 0; n < limit; n++ {
-		res, model := e.solver.Check(e.pc, nil, e.P.cfg.BranchTimeoutMs, e.ctx.Vars)
+		res, model := e.check(nil, e.P.cfg.BranchTimeoutMs, e.ctx.Vars)
 		e.stats.Queries++
 		if res != Sat {
 			if res == Unknown {
